@@ -1030,7 +1030,53 @@ func inAtomicValueStore(ex *Exec, fn *ssa.Function, args []Value) (Value, bool) 
 	return nil, true
 }
 
+// errors.Is without reflection: identity with the target, an Is method, or the Unwrap() error chain
+func inErrorsIs(ex *Exec, fn *ssa.Function, args []Value) (Value, bool) {
+	cur, ok1 := args[0].(IfaceV)
+	target, ok2 := args[1].(IfaceV)
+	if !ok1 || !ok2 {
+		return nil, false
+	}
+	for depth := 0; depth < 32; depth++ {
+		if cur.t == nil {
+			return ex.tc.Bool(target.t == nil), true
+		}
+		if target.t != nil && types.Identical(cur.t, target.t) && types.Comparable(cur.t) {
+			if ex.branch(ex.eqValues(cur, target)) {
+				return ex.tc.True, true
+			}
+		}
+		ms := types.NewMethodSet(cur.t)
+		if sel := ms.Lookup(nil, "Is"); sel != nil {
+			if m, ok := sel.Obj().(*types.Func); ok {
+				if r, ok := ex.invoke(cur, m, []Value{target}).(*Term); ok && ex.branch(r) {
+					return ex.tc.True, true
+				}
+			}
+		}
+		sel := ms.Lookup(nil, "Unwrap")
+		if sel == nil {
+			return ex.tc.False, true
+		}
+		m, ok := sel.Obj().(*types.Func)
+		if !ok {
+			return ex.tc.False, true
+		}
+		sig := m.Type().(*types.Signature)
+		if sig.Params().Len() != 0 || sig.Results().Len() != 1 {
+			return nil, false
+		}
+		nxt, ok := ex.invoke(cur, m, nil).(IfaceV)
+		if !ok {
+			return nil, false // Unwrap() []error and the like: run the real code
+		}
+		cur = nxt
+	}
+	return nil, false
+}
+
 func init() {
+	intrinsicTable["errors.Is"] = inErrorsIs
 	intrinsicTable["(*sync/atomic.Value).Load"] = inAtomicValueLoad
 	intrinsicTable["(*sync/atomic.Value).Store"] = inAtomicValueStore
 	intrinsicTable["github.com/mmcloughlin/geohash.hasBMI2"] = inNoop // no assembly: the portable Go encoder runs
